@@ -46,6 +46,24 @@ _SCRATCH_PARENT = "/dev/shm" if os.path.isdir("/dev/shm") and os.access("/dev/sh
 _LIVE_ROOTS = set()
 
 
+def _release_frames(exc):
+    """Drop the frame locals a caught exception keeps alive, innermost frame first. An I/O error raised inside a raw
+    write() keeps the memoryview it was handed alive through its traceback; if an outer frame's io.BytesIO that exports that
+    buffer is freed first, CPython 3.12 reports 'deallocated BytesIO object has exported buffers' and later crashes in the
+    garbage collector. Releasing inner frames first keeps the worker process alive, whatever the code under test does."""
+    frames = []
+    tb = exc.__traceback__
+    while tb is not None:
+        frames.append(tb.tb_frame)
+        tb = tb.tb_next
+    for fr in reversed(frames):
+        try:
+            fr.clear()
+        except RuntimeError:
+            pass
+    exc.__traceback__ = None
+
+
 def _sweep():
     """Remove scratch directories a run left behind (exception paths) and restore the real open()."""
     builtins.open = _REAL_OPEN
@@ -81,6 +99,7 @@ class SimRaw(io.RawIOBase):
         self.f = _REAL_FILEIO(path, mode.replace("b", ""))
         self._eintr_done = False
         self._hard_done = False
+        self.direct = False   # handed out unbuffered (buffering=0): a real FileIO retries EINTR itself (PEP 475)
         self._lcg = (plan.pattern * 2654435761 + 12345) & 0xFFFFFFFF
 
     @property
@@ -135,7 +154,8 @@ class SimRaw(io.RawIOBase):
         if p.kind == "eintr" and not self._eintr_done and pos >= p.at:
             self._eintr_done = True
             self.disk.fired("read_eintr")
-            raise InterruptedError(errno.EINTR, "simulated EINTR on read")
+            if not self.direct:
+                raise InterruptedError(errno.EINTR, "simulated EINTR on read")
         if p.kind == "eio" and not (p.once and self._hard_done):
             if pos >= p.at:
                 # only a fault if there is still data to read there
@@ -165,7 +185,8 @@ class SimRaw(io.RawIOBase):
         if p.kind == "eintr" and not self._eintr_done and pos >= p.at:
             self._eintr_done = True
             self.disk.fired("write_eintr")
-            raise InterruptedError(errno.EINTR, "simulated EINTR on write")
+            if not self.direct:
+                raise InterruptedError(errno.EINTR, "simulated EINTR on write")
         if p.kind in ("enospc", "eio") and not (p.once and self._hard_done):
             if pos >= p.at:
                 self._hard_done = True
@@ -249,6 +270,7 @@ class SimDisk:
         raw = SimRaw(self, path, mode, plan)
         size = max(1, plan.buf)
         if buffering == 0:
+            raw.direct = True
             return raw
         if "+" in mode:
             return io.BufferedRandom(raw, buffer_size=size)
@@ -394,6 +416,7 @@ class DiskWorld:
             raise
         except Exception as e:
             exc = e
+            _release_frames(e)
         fired = set(self.disk.fired_now)
         hard = {f for f in fired if f in ("write_enospc", "write_eio")}
         self.abstract.append(zlib.crc32(f"save|{plan.get('kind', 'none')}|{sorted(fired)}|{exc is None}".encode()))
@@ -440,6 +463,7 @@ class DiskWorld:
             raise
         except Exception as e:
             exc = e
+            _release_frames(e)
         fired = set(self.disk.fired_now)
         hard = "read_eio" in fired
         ack = self.acked.get(name)
@@ -502,6 +526,7 @@ class DiskWorld:
         except core.RunTimeout:
             raise
         except Exception as e:
+            _release_frames(e)
             self.stats[f"probe/torn_file_load:raised_{type(e).__name__}"] += 1
         self.disk.write_bytes(name, saved)
         self.log.add("torn_probe", name, cut)
@@ -1129,6 +1154,7 @@ class LoadWorld:
             raise
         except Exception as e:
             exc = e
+            _release_frames(e)
         fired = set(self.disk.fired_now)
         hard = "read_eio" in fired
         self.faults_fired += len(fired)
